@@ -275,6 +275,9 @@ type c18Machine struct {
 	trace     bool // record events
 	swtabs    map[*ast.SwitchStmt]*c18SwitchTab
 	calls     map[*ast.CallExpr]*c18CallInfo
+	// ext (optional) models calls of functions outside the repository for another rule's runs (C16.k: uniseg line
+	// breaking over a small alphabet); ok=false = no model, the call is treated as before
+	ext func(m *c18Machine, fr *c18Frame, full string, call *ast.CallExpr) (v c18Val, ok bool)
 }
 
 type c18CallInfo struct {
@@ -872,6 +875,11 @@ func (m *c18Machine) call(fr *c18Frame, call *ast.CallExpr) c18Val {
 		return c18Val{}
 	}
 	fi := m.funcInfo(fn)
+	if fi == nil && m.ext != nil {
+		if v, ok := m.ext(m, fr, full, call); ok {
+			return v
+		}
+	}
 	if fi == nil {
 		m.abort("call of %s (outside the repository, no model)", full)
 	}
